@@ -162,7 +162,7 @@ class AsyncProxy(BaseProxy):
                     ev["w"] = ctx.ticks()
                 ctx.record(ev)
             else:
-                ctx.record({"k": "DB", "s": self.sid})
+                ctx.record({"k": "DB", "s": self.sid, "req": sorted([eid, sorted(a)] for eid, a in args[0].items())})
             p = Pending(func, self.sid, ctx.nstep.get(self.sid, 0), copy.deepcopy(tuple(args)), fut, ctx.nreq)
             ctx.pending[self.sid] = p
             if ctx.rt is not None:
